@@ -6,6 +6,7 @@ package props
 // touching every custom module is executed on the replicas.
 
 import (
+	"os"
 	"fmt"
 	"testing"
 	"time"
@@ -52,6 +53,8 @@ type c02pCase struct {
 	Blocks           int    `json:"blocks"`
 	Dt               []int  `json:"dt"`
 	NoReporter       bool   `json:"no_reporter"`
+	FeePerSigner     string `json:"fee_per_signer,omitempty"` // bandtss FeePerSigner in uband ("" = default); amounts near 2^256 pass validation
+	ReportAll        bool   `json:"report_all,omitempty"`     // the validators report every request made so far, not only the first
 }
 
 func edgeU64(rt *rapid.T, label string, normal ...uint64) uint64 {
@@ -66,7 +69,7 @@ func genC02P(rt *rapid.T) c02pCase {
 		OracleRewardPct:  edgeU64(rt, "opct", 0, 50, 70, 100),
 		TSSRewardPct:     edgeU64(rt, "tpct", 0, 10, 50, 100),
 		PriceQuorum:      gen.OneOf(rt, "quorum", "0", "0", "0.000000000000000001", "0.3", "0.5", "1", "1"),
-		SamplingTry:      gen.OneOf[uint64](rt, "try", 1, 3, 10),
+		SamplingTry:      gen.OneOf[uint64](rt, "try", 1, 1, 3, 3, 3, 10, 10, 100, 100, 100, 0, 101),
 		Expiration:       gen.OneOf[uint64](rt, "exp", 1, 2, 5, 100),
 		MaxAsk:           gen.OneOf[uint64](rt, "maxask", 1, 2, 16, ^uint64(0)),
 		PenaltyNs:        gen.OneOf[uint64](rt, "pen", 0, 1, 1_000_000_000, 1<<63-1, 1<<63, ^uint64(0)),
@@ -85,6 +88,9 @@ func genC02P(rt *rapid.T) c02pCase {
 		CommunityTax:     gen.OneOf(rt, "tax", "0", "0.02", "0.5", "1"),
 		Blocks:           gen.Range(rt, "blocks", 4, 9),
 		NoReporter:       gen.Chance(rt, "noreporter", 1, 2),
+		FeePerSigner: gen.OneOf(rt, "feepersigner", "", "", "0", "1", "57896044618658097711785492504343953926634992332820282019728792003956564819968",
+			"115792089237316195423570985008687907853269984665640564039457584007913129639935"),
+		ReportAll: gen.Chance(rt, "reportall", 1, 2),
 	}
 	for i := 0; i < c.Blocks; i++ {
 		c.Dt = append(c.Dt, gen.OneOf(rt, "dt", 0, 1, 1, 3, 60, 100000))
@@ -100,6 +106,17 @@ func runC02P(c c02pCase) *pbt.Verdict {
 	tp.SigningPeriod, tp.MaxSigningAttempt, tp.MaxDESize, tp.CreationPeriod = c.SigningPeriod, c.MaxAttempt, c.MaxDE, c.CreationPeriod
 	bp := bandtsstypes.DefaultParams()
 	bp.RewardPercentage = c.TSSRewardPct
+	if c.FeePerSigner != "" {
+		amt, ok := math.NewIntFromString(c.FeePerSigner)
+		if !ok {
+			v.Failf("harness", "malformed fee per signer %q", c.FeePerSigner)
+			return v
+		}
+		bp.FeePerSigner = sdk.NewCoins()
+		if amt.IsPositive() {
+			bp.FeePerSigner = sdk.NewCoins(sdk.NewCoin("uband", amt))
+		}
+	}
 	fp := feedstypes.DefaultParams()
 	fp.PriceQuorum, fp.GracePeriod, fp.CooldownTime, fp.MinInterval, fp.MaxInterval = c.PriceQuorum, c.FeedsGrace, c.FeedsCooldown, c.FeedsMinInterval, c.FeedsMaxInterval
 	fp.CurrentFeedsUpdateInterval, fp.MaxCurrentFeeds, fp.PowerStepThreshold = c.FeedsUpdate, c.FeedsMaxFeeds, c.FeedsStep
@@ -143,9 +160,20 @@ func runC02P(c c02pCase) *pbt.Verdict {
 	u := ch.Users
 	val0, val1 := ch.Vals[0], ch.Vals[1]
 	step := func(dt int, txs ...[]byte) bool {
-		if _, err := ch.Block(txs, time.Duration(dt)*time.Second); err != nil {
+		res, err := ch.Block(txs, time.Duration(dt)*time.Second)
+		if err != nil {
 			v.Failf("C02/finalize-error", "validated parameters %+v: block %d failed: %v", c, ch.Height+1, err)
 			return false
+		}
+		for _, tr := range res.Resp.TxResults {
+			if tr.Code == 0 {
+				v.Count("tx_ok", 1)
+			} else {
+				v.Count(fmt.Sprintf("tx_rejected_%s/%d", tr.Codespace, tr.Code), 1)
+				if os.Getenv("VERIF_C02P_DEBUG") != "" {
+					fmt.Printf("DEBUG height %d tx rejected: %s\n", res.Height, tr.Log)
+				}
+			}
 		}
 		return true
 	}
@@ -158,7 +186,7 @@ func runC02P(c c02pCase) *pbt.Verdict {
 	sd := []tunneltypes.SignalDeviation{tunneltypes.NewSignalDeviation("S1", 100, 200)}
 	tmsg, _ := tunneltypes.NewMsgCreateTSSTunnel(sd, 60, "eth", "0x1", feedstypes.ENCODER_FIXED_POINT_ABI, sdk.NewCoins(sdk.NewInt64Coin("uband", 10)), u[3].Addr.String())
 	req := oracletypes.NewMsgRequestData(1, []byte("c"), 1, 1, "x", sdk.NewCoins(sdk.NewInt64Coin("uband", 1000)), 100000, 1000000, u[3].Addr, oracletypes.ENCODER_PROTO)
-	if !step(c.Dt[0], tx(u[3], tmsg), tx(u[4], req)) {
+	if !step(c.Dt[0], tx(u[3], tmsg), tx(u[3], req)) {
 		return v
 	}
 	if tn, err := ch.App.TunnelKeeper.GetTunnel(ch.Ctx(), 1); err == nil {
@@ -181,10 +209,16 @@ func runC02P(c c02pCase) *pbt.Verdict {
 		case 0:
 			txs = append(txs, tx(u[4], tssworld.TextRequest(u[4].Addr, []byte("hello"), sdk.NewCoins(sdk.NewInt64Coin("uband", 1000)))))
 		case 1:
-			txs = append(txs, tx(val0, oracletypes.NewMsgReportData(1, []oracletypes.RawReport{oracletypes.NewRawReport(1, 0, []byte("d"))}, val0.Val)))
-			txs = append(txs, tx(val1, oracletypes.NewMsgReportData(1, []oracletypes.RawReport{oracletypes.NewRawReport(1, 0, []byte("d"))}, val1.Val)))
+			nreq := oracletypes.RequestID(1)
+			if c.ReportAll {
+				nreq = oracletypes.RequestID(ch.App.OracleKeeper.GetRequestCount(ch.Ctx()))
+			}
+			for id := oracletypes.RequestID(1); id <= nreq; id++ {
+				txs = append(txs, tx(val0, oracletypes.NewMsgReportData(id, []oracletypes.RawReport{oracletypes.NewRawReport(1, 0, []byte("d"))}, val0.Val)))
+				txs = append(txs, tx(val1, oracletypes.NewMsgReportData(id, []oracletypes.RawReport{oracletypes.NewRawReport(1, 0, []byte("d"))}, val1.Val)))
+			}
 		case 2:
-			txs = append(txs, tx(u[4], req))
+			txs = append(txs, tx(u[3], req))
 			txs = append(txs, tx(u[3], tunneltypes.NewMsgTriggerTunnel(1, u[3].Addr.String())))
 		case 3:
 			m := ch.Users[i%3]
@@ -192,6 +226,14 @@ func runC02P(c c02pCase) *pbt.Verdict {
 		}
 		if !step(c.Dt[i], txs...) {
 			return v
+		}
+	}
+	if os.Getenv("VERIF_C02P_DEBUG") != "" {
+		n := ch.App.OracleKeeper.GetRequestCount(ch.Ctx())
+		for id := oracletypes.RequestID(1); id <= oracletypes.RequestID(n); id++ {
+			r, rerr := ch.App.OracleKeeper.GetResult(ch.Ctx(), id)
+			sr, serr := ch.App.OracleKeeper.GetSigningResult(ch.Ctx(), id)
+			fmt.Printf("DEBUG request %d result %v (%v) signing %+v (%v)\n", id, r.ResolveStatus, rerr, sr, serr)
 		}
 	}
 	if c.OracleRewardPct > 100 || c.TSSRewardPct > 100 {
